@@ -140,12 +140,20 @@ class Reg:
             return self.plain(self.names[w])
         if w in self.symbols:
             return self.plain(self.symbols[w])
+        has_split = False
         for pi, p in enumerate(self.prefixes):
             for by_symbol, txt, table in ((False, p["name"], self.names), (True, p["symbol"], self.symbols)):
                 if w.startswith(txt) and w[len(txt):] in table:
+                    has_split = True
                     i = table[w[len(txt):]]
                     if self.no_other_reading(by_symbol, pi, i, w):
                         return self.apply(pi, i)
+        # "Unit names are case-sensitive": a word that has no reading of its own but equals a registered
+        # spelling up to letter case must NOT resolve
+        if not hasattr(self, "_lower"):
+            self._lower = set(k.lower() for k in list(self.names) + list(self.symbols))
+        if w.lower() in self._lower and not has_split:
+            return ("N",)
         return None
 
     def base_text(self, dim):
